@@ -270,6 +270,8 @@ class ConvexPolyhedron(Polyhedron):
                 Multiplier to scale edges by. Volume and surface area setters preconvert
                 the scale_factor to the correct value for the desired property.
         """
+        if not scale_factor > 0:
+            raise ValueError("Size-like properties can only be set to positive values.")
         self._vertices *= scale_factor
         self._equations[:, 3] *= scale_factor
         self._simplex_equations[:, 3] *= scale_factor
